@@ -655,7 +655,11 @@ impl Parser {
                 Ok(Expr::untyped(ExprEnum::Block(stmts), meta))
             }
             None => {
-                let meta = self.tokens.peek().unwrap().1;
+                let Some(Token(_, meta)) = self.tokens.peek() else {
+                    self.push_error_for_next(ParseErrorEnum::Expected(TokenEnum::RightBrace));
+                    return Err(());
+                };
+                let meta = *meta;
                 Ok(Expr::untyped(ExprEnum::TupleLiteral(vec![]), meta))
             }
         }
